@@ -286,16 +286,16 @@ Proof.
   constructor; rewrite ?E1, ?E2, ?E3, ?E4; auto; lia.
 Qed.
 
-Lemma pget_inv n s t th sig :
+Lemma pget_inv n s t th sig cp :
   PInv n s -> nth_error (pthreads s) t = Some th -> plocked s = false -> cr_ind th = 0 ->
-  PInv n (pget s t th sig).
+  PInv n (pget s t th sig cp).
 Proof.
   intros [A B C L] Ht Hlk Hcr. rewrite Hlk in L. unfold pget.
   destruct (pdrain (pmaxage s) (pclock s) (pidle s) (pcreated s) (pdestroyed s)) as [[[got idle'] cr'] de'] eqn:E.
   destruct (pdrain_len _ _ _ _ _ _ _ _ _ E ltac:(lia)) as (L1 & L2 & L3).
   pose proof (sumf_upd_nth held_len (pthreads s) t) as U.
   pose proof (sumf_upd_nth cr_ind (pthreads s) t) as V.
-  destruct got as [x|]; [|specialize (L3 eq_refl); subst idle'; cbn [length] in L1; destruct (Nat.ltb_spec cr' (plimit s))];
+  destruct got as [x|]; [|specialize (L3 eq_refl); subst idle'; cbn [length] in L1; destruct (Nat.ltb_spec cr' (plimit s)); [destruct cp|]];
     match goal with |- context [upd_nth (pthreads s) t ?t'] => specialize (U t' th Ht); specialize (V t' th Ht) end;
     rewrite held_len_mk in U; rewrite cr_ind_mk in V; change (held_len th) with (length (pheld th)) in U;
     cbn [length] in U; rewrite Hcr in V;
@@ -313,7 +313,7 @@ Proof.
   { intros. eapply pinv_same; eauto. }
   destruct (ppcof th) as [| | |x] eqn:Epc.
   - assert (Hcr : cr_ind th = 0) by (unfold cr_ind; rewrite Epc; reflexivity).
-    destruct o; [| destruct (pheld th) eqn:Eh |]; inversion H; subst s'; clear H;
+    destruct o; [| destruct (pheld th) eqn:Eh | |]; inversion H; subst s'; clear H;
       (eapply Same; cbn [plimit pcreated pidle pthreads plocked pheld]; try reflexivity;
        rewrite ?cr_ind_mk, ?Hcr, ?Eh; reflexivity).
   - assert (Hcr : cr_ind th = 0) by (unfold cr_ind; rewrite Epc; reflexivity).
@@ -328,6 +328,7 @@ Proof.
         rewrite held_len_mk in U; rewrite cr_ind_mk in V; change (held_len th) with (length (pheld th)) in U;
         rewrite Eh in U; cbn [length] in U; rewrite Hcr in V;
         constructor; cbn [plimit pcreated pidle pthreads plocked length]; auto; lia.
+    + destruct (plocked s) eqn:Hlk; [discriminate|]. inversion H; subst s'. apply pget_inv; auto.
     + destruct (plocked s) eqn:Hlk; [discriminate|]. inversion H; subst s'. apply pget_inv; auto.
   - assert (Hcr : cr_ind th = 0) by (unfold cr_ind; rewrite Epc; reflexivity).
     destruct (plocked s) eqn:Hlk; [discriminate|].
@@ -420,8 +421,8 @@ Proof.
   rewrite Hh in U. rewrite E1, E2, E3, E4. lia.
 Qed.
 
-Lemma pget_pid s t th sig :
-  (forall y, pid s y) -> nth_error (pthreads s) t = Some th -> forall y, pid (pget s t th sig) y.
+Lemma pget_pid s t th sig cp :
+  (forall y, pid s y) -> nth_error (pthreads s) t = Some th -> forall y, pid (pget s t th sig cp) y.
 Proof.
   intros HI Ht y. unfold pget.
   destruct (pdrain (pmaxage s) (pclock s) (pidle s) (pcreated s) (pdestroyed s)) as [[[got idle'] cr'] de'] eqn:E.
@@ -432,7 +433,10 @@ Proof.
   - match goal with |- context [upd_nth (pthreads s) t ?t'] => specialize (U t' th Ht) end.
     change (hcnt y th) with (cnt (pheld th) y) in U. rewrite hcnt_mk in U. rewrite cnt_cons in U.
     cbn [pidle pthreads pdestroyed pnext]. lia.
-  - destruct (Nat.ltb cr' (plimit s)).
+  - destruct (Nat.ltb cr' (plimit s)); [destruct cp|].
+    + match goal with |- context [upd_nth (pthreads s) t ?t'] => specialize (U t' th Ht) end.
+      change (hcnt y th) with (cnt (pheld th) y) in U. rewrite hcnt_mk in U.
+      cbn [pidle pthreads pdestroyed pnext]. lia.
     + match goal with |- context [upd_nth (pthreads s) t ?t'] => specialize (U t' th Ht) end.
       change (hcnt y th) with (cnt (pheld th) y) in U. rewrite hcnt_mk in U. rewrite cnt_cons in U.
       cbn [pidle pthreads pdestroyed pnext]. unfold one in *.
@@ -453,7 +457,7 @@ Proof.
             pthreads s2 = upd_nth (pthreads s) t th' -> pheld th' = pheld th -> pid s2 y).
   { intros. eapply pid_same; eauto. }
   destruct (ppcof th) as [| | |x] eqn:Epc.
-  - destruct o; [| destruct (pheld th) eqn:Eh |]; inversion H; subst s'; clear H;
+  - destruct o; [| destruct (pheld th) eqn:Eh | |]; inversion H; subst s'; clear H;
       (eapply Same; cbn [pidle pdestroyed pnext pthreads pheld]; try reflexivity; rewrite ?Eh; reflexivity).
   - destruct o.
     + destruct (plocked s); [discriminate|]. inversion H; subst s'. apply pget_pid; auto.
@@ -463,6 +467,7 @@ Proof.
         match goal with |- context [upd_nth (pthreads s) t ?t'] => specialize (U t' th Ht) end;
         change (hcnt y th) with (cnt (pheld th) y) in U; rewrite hcnt_mk in U; rewrite Eh in U;
         cbn [pidle pthreads pdestroyed pnext map fst]; rewrite ?cnt_cons in *; lia.
+    + destruct (plocked s); [discriminate|]. inversion H; subst s'. apply pget_pid; auto.
     + destruct (plocked s); [discriminate|]. inversion H; subst s'. apply pget_pid; auto.
   - destruct (plocked s); [discriminate|].
     destruct (Nat.ltb 0 (psig s)); [|discriminate]. inversion H; subst s'. apply pget_pid; auto.
@@ -552,18 +557,19 @@ Lemma pstep_handout s t s' th th' x :
 Proof.
   intros H Ht Ht' Hh. unfold pstep in H. rewrite Ht in H.
   destruct (pcur th) as [o|]; [|discriminate].
-  assert (G : forall sig, pget s t th sig = s' ->
+  assert (G : forall sig cp, pget s t th sig cp = s' ->
           (x = pnext s /\ pnext s' = S (pnext s)) \/
           (exists last, In (x, last) (pidle s) /\ expired (pmaxage s) (pclock s) last = false)).
-  { intros sig E. unfold pget in E.
+  { intros sig cp E. unfold pget in E.
     destruct (pdrain (pmaxage s) (pclock s) (pidle s) (pcreated s) (pdestroyed s)) as [[[got idle'] cr'] de'] eqn:D.
     destruct (pdrain_spec _ _ _ _ _ _ _ _ _ D) as (pre & F & Dd & C & M).
     destruct got as [y|].
     - subst s'. cbn in Ht'. rewrite (nth_error_upd_nth_eq _ _ _ _ Ht) in Ht'. inversion Ht'; subst th'.
       cbn in Hh. inversion Hh; subst y. right. destruct M as (last & M1 & M2). exists last.
       split; [rewrite M1; apply in_or_app; right; left; reflexivity|exact M2].
-    - destruct (Nat.ltb cr' (plimit s)); subst s'; cbn in Ht';
+    - destruct (Nat.ltb cr' (plimit s)); [destruct cp|]; subst s'; cbn in Ht';
         rewrite (nth_error_upd_nth_eq _ _ _ _ Ht) in Ht'; inversion Ht'; subst th'; cbn in Hh.
+      + exfalso. symmetry in Hh. eapply list_cons_neq; eauto.
       + inversion Hh. left. split; reflexivity.
       + exfalso. symmetry in Hh. eapply list_cons_neq; eauto. }
   assert (Keep : forall th2 s2, Some s2 = Some s' -> pthreads s2 = upd_nth (pthreads s) t th2 ->
@@ -572,15 +578,16 @@ Proof.
     rewrite (nth_error_upd_nth_eq _ _ _ _ Ht) in Ht'. inversion Ht'; subst th2.
     rewrite Hh in E3. cbn in E3. lia. }
   destruct (ppcof th) as [| | |z].
-  - exfalso. destruct o; [| destruct (pheld th) eqn:Eh |];
+  - exfalso. destruct o; [| destruct (pheld th) eqn:Eh | |];
       (eapply Keep; [exact H | reflexivity | cbn; rewrite ?Eh; cbn; lia]).
   - destruct o.
-    + destruct (plocked s); [discriminate|]. injection H as E; exact (G _ E).
+    + destruct (plocked s); [discriminate|]. injection H as E; exact (G _ _ E).
     + exfalso. destruct (plocked s); [discriminate|].
       destruct (pheld th) eqn:Eh; (eapply Keep; [exact H | reflexivity | cbn; rewrite ?Eh; cbn; lia]).
-    + destruct (plocked s); [discriminate|]. injection H as E; exact (G _ E).
+    + destruct (plocked s); [discriminate|]. injection H as E; exact (G _ _ E).
+    + destruct (plocked s); [discriminate|]. injection H as E; exact (G _ _ E).
   - destruct (plocked s); [discriminate|].
-    destruct (Nat.ltb 0 (psig s)); [|discriminate]. injection H as E; exact (G _ E).
+    destruct (Nat.ltb 0 (psig s)); [|discriminate]. injection H as E; exact (G _ _ E).
   - exfalso. eapply Keep; [exact H | reflexivity | cbn; lia].
 Qed.
 
@@ -608,13 +615,13 @@ Proof.
   intros H Hy. unfold pstep in H.
   destruct (nth_error (pthreads s) t) as [th|]; [|discriminate].
   destruct (pcur th) as [o|]; [|discriminate].
-  assert (G : forall sig, pget s t th sig = s' ->
+  assert (G : forall sig cp, pget s t th sig cp = s' ->
      In y (pdestroyed s) \/ exists last, In (y, last) (pidle s) /\ expired (pmaxage s) (pclock s) last = true).
-  { intros sig E. unfold pget in E.
+  { intros sig cp E. unfold pget in E.
     destruct (pdrain (pmaxage s) (pclock s) (pidle s) (pcreated s) (pdestroyed s)) as [[[got idle'] cr'] de'] eqn:D.
     destruct (pdrain_spec _ _ _ _ _ _ _ _ _ D) as (pre & F & Dd & C & M).
     assert (Hde : In y de').
-    { destruct got; [|destruct (Nat.ltb cr' (plimit s))]; subst s'; exact Hy. }
+    { destruct got; [|destruct (Nat.ltb cr' (plimit s)); [destruct cp|]]; subst s'; exact Hy. }
     rewrite Dd in Hde. apply in_app_or in Hde. destruct Hde as [Hde|Hde]; [left; exact Hde|right].
     apply in_map_iff in Hde. destruct Hde as ([y' last] & E1 & E2). cbn in E1. subst y'.
     exists last. rewrite Forall_forall in F. split; [|apply (F _ E2)].
@@ -622,13 +629,14 @@ Proof.
     - destruct M as (l & M1 & _). rewrite M1. apply in_or_app. left. exact E2.
     - destruct M as [M1 _]. rewrite M1. exact E2. }
   destruct (ppcof th) as [| | |z].
-  - left. destruct o; [| destruct (pheld th) |]; inversion H; subst s'; exact Hy.
+  - left. destruct o; [| destruct (pheld th) | |]; inversion H; subst s'; exact Hy.
   - destruct o.
-    + destruct (plocked s); [discriminate|]. injection H as E; exact (G _ E).
+    + destruct (plocked s); [discriminate|]. injection H as E; exact (G _ _ E).
     + left. destruct (plocked s); [discriminate|]. destruct (pheld th); inversion H; subst s'; exact Hy.
-    + destruct (plocked s); [discriminate|]. injection H as E; exact (G _ E).
+    + destruct (plocked s); [discriminate|]. injection H as E; exact (G _ _ E).
+    + destruct (plocked s); [discriminate|]. injection H as E; exact (G _ _ E).
   - destruct (plocked s); [discriminate|].
-    destruct (Nat.ltb 0 (psig s)); [|discriminate]. injection H as E; exact (G _ E).
+    destruct (Nat.ltb 0 (psig s)); [|discriminate]. injection H as E; exact (G _ _ E).
   - left. inversion H; subst s'; exact Hy.
 Qed.
 
